@@ -322,7 +322,7 @@ func runC01(c *Ctx) {
 			}
 		}
 		for _, d := range Calls(f, "(*net/http.Client).Do") {
-			c.ArgIs("C01.A", tag+":sent-request", p, d, 1, "the request sent is the one carrying the ID headers", reqFrom)
+			c.PathIs("C01.A", tag+":sent-request", p, d.Pos(), ThroughClone(Args(CallOf(d))[1]), "the request sent is (a Clone/WithContext copy of) the one carrying the ID headers", reqFrom)
 		}
 	}
 	hs := []string{"(net/http.Header).Add", "(net/http.Header).Set"}
